@@ -18,6 +18,7 @@ type Item struct {
 	Exec   explore.Exec
 	Seq    func() *SeqResult // sequential enumeration item (no scheduler search)
 	Sample string
+	Cfg    mcrt.Config // MaxSteps/FairAfter overrides (zero = defaults)
 }
 
 // SeqResult is what a sequential (input/history enumeration) item reports.
